@@ -156,6 +156,18 @@ def strip_refs(refs):
 def simulate(hist, props, opts=None):
     "Runs one history; returns the run child's result dict (+ 'faults', 'n_refs')"
     refs, faults = prepare(hist, all_refs=('C08' in props))
-    res = fork_call(run_history, (hist, strip_refs(refs), faults, list(props), opts), timeout=RUN_TIMEOUT)
+    try:
+        res = fork_call(run_history, (hist, strip_refs(refs), faults, list(props), opts), timeout=RUN_TIMEOUT)
+    except ChildError as err:
+        if 'C08' in props and 'timed out' in str(err):
+            # every reference call returned, the same calls made one after the other in one
+            # interpreter did not: the history changed the behaviour of a call (it hangs)
+            res = {'events': [], 'digest': sha('hang'), 'counters': {'run:hang': 1}, 'states': [], 'transitions': [],
+                   'shape': 'hang', 'extra': {}, 'nontrivial': True, 'distinct_keys': [],
+                   'violations': [{'property': 'C08', 'oracle': 'result', 'subkind': 'history-changes-result:any:ok->hang',
+                                   'op': -1, 'detail': {'what': 'the history did not finish within %.0fs although every one of its '
+                                                                'calls finished in a pristine interpreter' % RUN_TIMEOUT}}]}
+        else:
+            raise
     res['faults'] = faults
     return res
